@@ -127,12 +127,7 @@ def judge(ctx, stream, cases):
                                        "exclude_external_libraries": xx, "external_patterns": ext, "impl": impl, "model": a.get("M"), "line": line[:3000]})
 
 
-def run(ctx: Ctx):
-    run_witnesses(ctx)
-    quick = ctx.quick()
-    s = Stream(ctx, "random trees with internal + external imports x option sets")
-    rng = ctx.rng("c10")
-    n = ctx.size(1200, 10000)
+def stream_cases(ctx: Ctx, s, n, rng):
     done = 0
     while done < n and ctx.left() > 20 and not ctx.violations:
         cases = []
@@ -154,5 +149,11 @@ def run(ctx: Ctx):
             cases.append({"tree": tree, "root": "proj", "mp": mp, "configs": configs})
         judge(ctx, s, cases)
         done += len(cases)
+
+
+def run(ctx: Ctx):
+    run_witnesses(ctx)
+    s = Stream(ctx, "random trees with internal + external imports x option sets")
+    stream_cases(ctx, s, ctx.size(1200, 10000), ctx.rng("c10"))
     s.finish()
     return RULE
